@@ -96,7 +96,9 @@ def run_case(scn):
     a = agp_model.audit(xs, zs, N, r)
     T = len(xs)
     lens = [L for L in a["lengths"][1:] if L is not None]
-    stopped_by_accuracy = bool(lens) and lens[-1] < eps and T <= scn["iters"] and min(lens[:-1] or [float("inf")]) >= eps
+    # "Solve stops because the requested accuracy was reached": it returned before the budget was exhausted
+    # (or exactly at the budget with an interval shorter than eps subdivided)
+    stopped_by_accuracy = T >= 2 and (T < scn["iters"] or (bool(lens) and min(lens) < eps))
     if not stopped_by_accuracy:
         obs["not_accuracy_stop"] = 1
         return {"violations": viol, "obs": obs, "skip": "budget-or-other-stop"}
